@@ -575,6 +575,11 @@ func (s *AbsfsNFS) CreateWithContext(ctx context.Context, dir *NFSNode, name str
 		return nil, fmt.Errorf("create: failed to chmod %s: %w", path, err)
 	}
 
+	// Record the owner the caller asked for (its effective identity unless root
+	// named another), as MKDIR and SYMLINK do. Best effort: a backend that cannot
+	// change ownership still gets the file.
+	s.fs.Chown(path, int(attrs.Uid), int(attrs.Gid))
+
 	// Invalidate parent directory caches and negative cache entries in the directory
 	s.attrCache.Invalidate(dir.path)
 	s.attrCache.InvalidateNegativeInDir(dir.path)
